@@ -5,7 +5,7 @@ import ast
 from fractions import Fraction
 
 from .absint import Interp, ObjV, Outcome
-from .forms import Const, Form, TupleV
+from .forms import Const, DictV, Form, TupleV
 from .srcmodel import AnalysisError, FuncInfo, Package, src_of, norm_src
 
 
@@ -253,45 +253,109 @@ def guard_context(ifnode):
     return chain
 
 
-def check_range_guard(ctx, rule, fi, param, reject, exc, what, env=None, accept_sample=(), context_ok=None):
-    """A guard `if <test over param>: raise <exc>` must exist whose rejected set, restricted to
-    the representatives of the oracle predicate `reject(x)` and of the guard's own breakpoints,
-    contains every value the oracle rejects (missing => VIOLATION: a documented rejection is
-    gone or weakened) and rejects none of `accept_sample` (documented-valid values)."""
-    ge = GuardEval(ctx.pkg, fi, param, env)
-    cands = []
-    for ifn, test, excs in find_raise_guards(fi):
-        if param not in names_in(test):
-            continue
-        cands.append((ifn, test, excs))
-    oracle_pts = set(Fraction(x) for x in reject.points)
-    best = None
-    for ifn, test, excs in cands:
-        pts = oracle_pts | ge.breakpoints(test)
-        reps = representatives(pts)
-        vals = [(x, ge.holds(test, x)) for x in reps]
-        if all(v is None for _, v in vals):
-            continue
-        missed = [x for x, v in vals if reject(x) and v is not True]
-        over = [x for x in accept_sample if ge.holds(test, Fraction(x)) is True]
-        best = (ifn, test, excs, missed, over) if best is None or len(missed) < len(best[3]) else best
-        if not missed:
+def _concrete_run(pkg, fi, pvals, assumptions=None, param_classes=None, valuation=None, self_class=None):
+    """interpret `fi` with the given parameters bound to concrete values (constant propagation decides the guards they reach).
+    -> (rejected?, exception of the deciding raise, deciding outcome, interpreter).  A value that flows into the computation
+    without being rejected (including one the interpreter cannot push through the arithmetic) counts as accepted."""
+    pvals = dict(pvals)
+    kw = fi.node.args.kwarg.arg if fi.node.args.kwarg is not None else None
+    names = {a.arg for a in list(fi.node.args.posonlyargs) + list(fi.node.args.args) + list(fi.node.args.kwonlyargs)}
+    extra = [(k, v) for k, v in pvals.items() if k not in names and k != kw]
+    if extra and kw is not None:
+        # keyword-only options read from **kwargs
+        for k, _ in extra:
+            del pvals[k]
+        prev = pvals.get(kw)
+        items = list(prev.items) if isinstance(prev, DictV) else []
+        pvals[kw] = DictV(items + [(Const(k), v) for k, v in extra])
+    it = Interp(pkg, param_values=pvals, assumptions=dict(assumptions or {}), param_classes=dict(param_classes or {}),
+                valuation=list(valuation or []), self_class=self_class)
+    try:
+        outs = it.run(fi)
+    except AnalysisError:
+        raise
+    except Exception:
+        return False, None, None, it
+    rets = [o for o in outs if o.kind == "return"]
+    if rets or not outs:
+        return False, None, (rets[0] if rets else None), it
+    return True, outs[-1].exc, outs[-1], it
+
+
+def _num(x):
+    return Form.num(x if isinstance(x, (int, Fraction)) else Fraction(repr(x)))
+
+
+def check_range_guard(ctx, rule, fi, param, reject, exc, what, env=None, accept_sample=(), context_ok=None, base=None, assumptions=None,
+                      param_classes=None, valuation=None, integer=None):
+    """Every value of `param` the oracle `reject` rejects must make `fi` raise `exc` (no returning path), and no value of
+    `accept_sample` may be rejected.  Decided by constant propagation over one representative of every order class: the breakpoints
+    are the oracle's own plus every constant the parameter is compared with on the interpreted paths (helpers inlined, temporaries
+    and flipped comparisons followed), so between two breakpoints no comparison changes its outcome."""
+    pkg = ctx.pkg
+    valuation = list(valuation or [])
+    for k, v in (env or {}).items():
+        valuation.append((S("gv." + k), v))
+        valuation.append((S(k), v))
+    pts = set(Fraction(x) for x in reject.points)
+    if integer is None:
+        integer = all(Fraction(x).denominator == 1 for x in list(reject.points) + list(accept_sample)) and bool(accept_sample)
+        ann = fi.node.args
+        for a in list(ann.args) + list(ann.kwonlyargs):
+            if a.arg == param and a.annotation is not None and src_of(a.annotation) == "int":
+                integer = True
+    seen = {}
+    where = fi.node
+
+    def probe(x):
+        if x not in seen:
+            pv = dict(base or {})
+            pv[param] = _num(x)
+            rej, e, out, it = _concrete_run(pkg, fi, pv, assumptions, param_classes, valuation)
+            new = set()
+            for c in it.cmp_points:
+                new.add(c)
+                new.add(-c)
+            seen[x] = (rej, e, out, new)
+        return seen[x]
+    for _ in range(3):
+        if integer:
+            reps = sorted({q for p_ in pts for q in (p_ - 1, p_, p_ + 1) if q.denominator == 1} | {Fraction(int(p_)) for p_ in pts})
+        else:
+            reps = representatives(pts)
+        before = set(pts)
+        for x in reps:
+            pts |= {c for c in probe(x)[3] if abs(c) < 10**9}
+        if pts == before:
             break
-    if best is None:
-        ctx.violation(rule, fi, fi.node, f"guard on `{param}`: {what}", f"no `if ...: raise` guard over `{param}` found: {what} is not rejected")
-        return None
-    ifn, test, excs, missed, over = best
+    missed, wrong_exc = [], []
+    for x in reps:
+        rej, e, out, _n = probe(x)
+        if reject(x):
+            if not rej:
+                missed.append(x)
+                if out is not None:
+                    where = out.node
+            elif e != exc:
+                wrong_exc.append((x, e))
+                where = out.node if out is not None else where
+            elif where is fi.node and out is not None:
+                where = out.node
+    over = []
+    for x in accept_sample:
+        rej, e, out, _n = probe(Fraction(x))
+        if rej:
+            over.append(x)
+            where = out.node if out is not None else where
     if missed:
-        ctx.violation(rule, fi, ifn, f"guard on `{param}`: {what}", f"guard `{src_of(test)}` does not reject {param} in {{{', '.join(str(float(m)) for m in missed[:5])}}} (documented: {what})")
+        ctx.violation(rule, fi, where, f"guard on `{param}`: {what}", f"{param} in {{{', '.join(str(float(m)) for m in missed[:5])}}} is not rejected (documented: {what} -> {exc})")
     elif over:
-        ctx.violation(rule, fi, ifn, f"guard on `{param}`: {what}", f"guard `{src_of(test)}` rejects documented-valid value(s) {over[:3]}")
-    elif exc not in excs:
-        ctx.violation(rule, fi, ifn, f"guard on `{param}`: {what}", f"guard raises {excs} where {exc} is documented")
-    elif any(t is None for t, _ in guard_context(ifn)):
-        ctx.unknown(rule, fi, ifn, f"guard on `{param}`: {what}", "guard sits inside a loop/try: dominance not decided")
+        ctx.violation(rule, fi, where, f"guard on `{param}`: {what}", f"documented-valid value(s) {[str(o) for o in over[:3]]} of `{param}` are rejected")
+    elif wrong_exc:
+        ctx.violation(rule, fi, where, f"guard on `{param}`: {what}", f"{param}={float(wrong_exc[0][0])} raises {wrong_exc[0][1]} where {exc} is documented")
     else:
-        ctx.holds(rule, fi, ifn, f"guard on `{param}`: {what}", f"`{src_of(test)}` -> {exc}")
-    return ifn
+        ctx.holds(rule, fi, where, f"guard on `{param}`: {what}", f"-> {exc} on every rejected order class ({len(reps)} representatives), documented-valid samples accepted")
+    return where
 
 
 class Reject:
@@ -315,29 +379,70 @@ def isinstance_guard(fi: FuncInfo, param: str):
             yield ifn, t.args[1], excs
 
 
-def check_type_guard(ctx, rule, fi, param, exc, must_accept, must_reject, interp: Interp | None = None):
-    """`if not isinstance(param, T): raise exc` with T accepting `must_accept` type names and
-    none of `must_reject`."""
-    found = False
-    for ifn, tnode, excs in isinstance_guard(fi, param):
-        found = True
-        tnames = type_names(ctx.pkg, fi, tnode)
-        if tnames is None:
-            ctx.unknown(rule, fi, ifn, f"type guard on `{param}`", f"cannot resolve type tuple `{src_of(tnode)}`")
-            return
-        missing = [t for t in must_accept if t not in tnames]
-        extra = [t for t in must_reject if t in tnames]
-        if missing:
-            ctx.violation(rule, fi, ifn, f"type guard on `{param}`", f"documented-accepted type(s) {missing} are rejected by `{src_of(ifn.test)}`")
-        elif extra:
-            ctx.violation(rule, fi, ifn, f"type guard on `{param}`", f"type(s) {extra} are accepted by `{src_of(ifn.test)}` but must raise {exc}")
-        elif exc not in excs:
-            ctx.violation(rule, fi, ifn, f"type guard on `{param}`", f"raises {excs}, documented {exc}")
+_TYPE_SAMPLES = {
+    "int": lambda: Form.num(3), "float": lambda: Form.num(Fraction(5, 2)), "complex": lambda: Form.num(1, 1),
+    "str": lambda: Const("zz"), "bool": lambda: Const(True), "None": lambda: Const(None),
+    "list": lambda: TupleV([Form.num(1), Form.num(0)], "list"), "tuple": lambda: TupleV([Form.num(1), Form.num(0)], "tuple"),
+    "dict": lambda: DictV([]),
+}
+_TYPE_FACTS = {"np.ndarray": ("inst", "numpy.ndarray", "ndarray"), "numpy.ndarray": ("inst", "numpy.ndarray", "ndarray"), "ndarray": ("inst", "numpy.ndarray", "ndarray")}
+
+
+def check_type_guard(ctx, rule, fi, param, exc, must_accept, must_reject, interp: Interp | None = None, samples=None, base=None, assumptions=None,
+                     param_classes=None, valuation=None):
+    """a value of every type in `must_reject` makes `fi` raise `exc` with no returning path; a (valid) value of every type in
+    `must_accept` reaches a return.  Decided by interpreting the function with the parameter bound to a representative of the type:
+    isinstance tests are decided by the representative's type, wherever the test is written (helper, temporary, either polarity)."""
+    pkg = ctx.pkg
+    samples = dict(samples or {})
+    where = fi.node
+    probs = []
+
+    def run(t):
+        pv = dict(base or {})
+        ass = dict(assumptions or {})
+        if t in _TYPE_FACTS:
+            names = {a.arg for a in list(fi.node.args.posonlyargs) + list(fi.node.args.args) + list(fi.node.args.kwonlyargs)}
+            if param in names:
+                ass[param] = _TYPE_FACTS[t]
+            else:
+                pv[param] = Form.sym("<ndarray>")
+                ass["<ndarray>"] = _TYPE_FACTS[t]
+        elif t in samples:
+            v = samples[t]
+            pv[param] = v if not isinstance(v, (int, float, Fraction)) or isinstance(v, bool) else _num(v)
+        elif t in _TYPE_SAMPLES:
+            pv[param] = _TYPE_SAMPLES[t]()
         else:
-            ctx.holds(rule, fi, ifn, f"type guard on `{param}`", f"`{src_of(ifn.test)}` -> {exc}")
-        return
-    if not found:
-        ctx.violation(rule, fi, fi.node, f"type guard on `{param}`", f"no `if not isinstance({param}, ...): raise {exc}` guard found")
+            return None
+        return _concrete_run(pkg, fi, pv, ass, param_classes, valuation)
+    for t in must_reject:
+        r = run(t)
+        if r is None:
+            ctx.unknown(rule, fi, fi.node, f"type guard on `{param}`", f"no representative value for type {t}")
+            return
+        rej, e, out, _it = r
+        if not rej:
+            probs.append(f"a {t} value of `{param}` is accepted but must raise {exc}")
+            where = out.node if out is not None else where
+        elif e != exc:
+            probs.append(f"a {t} value of `{param}` raises {e}, documented {exc}")
+            where = out.node if out is not None else where
+        elif where is fi.node and out is not None:
+            where = out.node
+    for t in must_accept:
+        r = run(t)
+        if r is None:
+            ctx.unknown(rule, fi, fi.node, f"type guard on `{param}`", f"no representative value for type {t}")
+            return
+        rej, e, out, _it = r
+        if rej:
+            probs.append(f"documented-accepted type {t} of `{param}` is rejected ({e})")
+            where = out.node if out is not None else where
+    if probs:
+        ctx.violation(rule, fi, where, f"type guard on `{param}`", "; ".join(probs[:3]))
+    else:
+        ctx.holds(rule, fi, where, f"type guard on `{param}`", f"{', '.join(must_reject)} -> {exc}; {', '.join(must_accept)} accepted")
 
 
 def type_names(pkg, fi, node):
